@@ -42,10 +42,25 @@ theorem C01_tag_bound (env : Env) (name bind : String) (rest : List String) (ks 
     transformTag env (.mk .ident (name :: bind :: rest) ks) st = (nIdent name bind, st) := by
   simp [transformTag, h1, h2, h3, h4, FRAGMENT]
 
-/-- A member tag (`<a.b.C>`) is passed as the member expression `a.b.C` (a plain expression, no JSX node). -/
+/-- A member tag (`<a.b.C>`) is passed as the member expression `a.b.C` (a plain expression, no JSX node); the state changes
+    at most by the diagnostic about an object that is not an identifier (`<a-b.C>`). -/
 theorem C01_tag_member (env : Env) (as : List String) (ks : List Node) (st : St) :
-    transformTag env (.mk .jsxMember as ks) st = (jsxMemberToExpr (.mk .jsxMember as ks), st) := by
+    transformTag env (.mk .jsxMember as ks) st
+      = (jsxMemberToExpr (.mk .jsxMember as ks), memberRootCheck (.mk .jsxMember as ks) st) := by
   simp [transformTag]
+
+/-- `<a.b.C>` whose first identifier CAN be bound (or is `this`) is lowered without a diagnostic ... -/
+theorem C01_tag_member_quiet (as oas : List String) (n : String) (oks : List Node) (prop : Node) (st : St)
+    (h : n = "this" ∨ isValidSymbol n = true) :
+    memberRootCheck (.mk .jsxMember as [.mk .ident (n :: oas) oks, prop]) st = st := by
+  rcases h with h | h <;> simp [memberRootCheck, memberRoot, h]
+
+/-- ... and `<a-b.C>` (nothing can be bound to `a-b`; `a-b.C` would print as a subtraction) is REPORTED. -/
+theorem C01_tag_member_object_reported (as oas : List String) (n : String) (oks : List Node) (prop : Node) (st : St)
+    (h1 : n ≠ "this") (h2 : isValidSymbol n = false) :
+    memberRootCheck (.mk .jsxMember as [.mk .ident (n :: oas) oks, prop]) st
+      = st.err "Error: The object of a member tag must be an identifier." := by
+  simp [memberRootCheck, memberRoot, h1, h2]
 
 theorem C01_tag_member_shape (as oas pas : List String) (n b pn : String) (oks pks : List Node) (hn : n ≠ "this")
     (hp : isValidPropIdent pn = true) :
